@@ -167,11 +167,18 @@ func verify(out interface{}, val string, base keyMaterial, evID string, evSalt, 
 			info = evInfo
 		}
 	}
-	if val == "" {
-		// empty strings and nil/empty byte slices carry nothing to protect
-		return ""
-	}
 	encs := map[string]string{"S": s, "B": string(b)}
+	if val == "" {
+		// "all byte strings incl. empty": an empty string is protected like any other value (it decrypts to
+		// the empty string, its digest is the digest of the empty string); an empty or nil []byte may stay empty
+		delete(encs, "B")
+		if len(b) != 0 {
+			encs["B"] = string(b)
+		}
+		if len(hb) == 0 {
+			hb = []byte(shapes.HmacOf(kb, salt, info, nil))
+		}
+	}
 	for k, v := range moreEnc {
 		encs[k] = v
 	}
